@@ -42,4 +42,4 @@ def c07(ctx: Ctx):
                 "{no params, one failing query param} x multi-error x callback-reads-body) + parameter focus (every assignment of path-level kind, "
                 "operation-level kind and request text to <=2 of 3 (in,name) keys x security x body x MultiError/ExcludeRequestBody/ExcludeRequestQueryParams); "
                 "every case distinct and judged")
-    ctx.validate("Trace_C07", "Trace_C07.cfg", logp, chunk_lines=2500)
+    ctx.validate("Trace_C07", "Trace_C07.cfg", logp, chunk_lines=2350 if ctx.tier == "quick" else 2500)
